@@ -44,7 +44,7 @@ func (check) Cases(tier string) int {
 const typeGroup = 4
 
 func (check) Rule() string {
-	return "one (type, pre-fill, configuration) triple per case. Type: derived from idx/4 (4 consecutive cases share it); 6 in 8 generated with reflect.StructOf (3-8 top-level fields, nesting depth <= 2; kinds bool, int/8/16/32/64, uint/8/16/32/64, float32/64, string, time.Duration, pointers to those, nested structs by value / by pointer / inline (inline, squash), []T and [N]T of primitives, [N]T (N <= 3) of structs (generated ones of primitives, or LibPlain with its unexported, ignored and embedded fields), of map[string]T and of []T, []struct, []*struct, map[string]T, map[string]*struct, map[string]struct; *ucfg.Config fields (pre-filled from a random object or list tree over a 4-key pool, or nil), config tags with and without a name (half of the names lower-case ASCII, the others with leading / inner / only upper-case letters, with _ and -, with lower- and upper-case non-ASCII letters, with letters that have no case; Go field names F<n>, MaxF<n>, F\u00dc<n>, F_x<n>), ignore, merge/replace/append/prepend on lists, maps (1 in 3) and *Config fields and -- 2 in 5 -- merge/replace/append/prepend on struct-typed fields (by value, by pointer, inline; merge twice as often as each other option, because it only shows against an outer policy), validate tags min/max/positive/nonzero on fields that exist before Unpack; the hand-written LibConn, LibLimits, LibPlain (unexported fields, an embedded unexported struct, ignored fields, InitDefaults unconditional / conditional / touching an unexported field, Validate method) and the named primitives LibPort (constant InitDefaults), LibCondPort (conditional), LibNoopInt, LibNoopStr (InitDefaults doing nothing), the named list LibList and the named array LibArr (with a no-op InitDefaults), the named maps LibMap (no-op InitDefaults) and LibDefMap (InitDefaults sets one entry outside the key pool) in 1 of 4 map-of-primitive fields, regexp.Regexp by value and by pointer, inline structs by pointer (nil or pre-filled; half of their struct types start with a struct inlined in turn, by value or by pointer, followed by ordinary fields), and fields no configuration mentions -- an interface type listing InitDefaults (nil, or holding a pointer whose InitDefaults changes nothing), ucfg.Config by value (zero or filled), the next pointer of the self-referential LibRing (nil, a chain, the node itself, a ring of two) -- as ordinary fields by value and by pointer; the self-unpacking LibSelf (Unpack(*Config), rejects lo > hi itself after having stored), LibSelfV (Unpack(*Config), Validate method rejects), LibSelfAny (Unpack(interface{})) likewise; half of the generated types carry a second tag set under the key alt on 4 fields in 5: other name, ignore flag and merge policy drawn independently, the hand-written types carry a few alt tags too), 1 in 8 the hand-written LibTop, 1 in 8 one of the three self-unpacking types as the top-level target, 1 in 64 LibRing (1 in 3 of those with the target itself as its next node). Pre-fill: every field non-zero w.p. 2/3 (nil and empty slices/maps, nil pointers otherwise; validated fields always valid). Configuration: nested map[string]interface{} through NewFrom(PathSep(\".\")), every field path mentioned w.p. 1/2 (1 in 16 of those with an explicit null), numbers as int/int64/uint64/float64/decimal string, durations as string/seconds, ignored and unexported names mentioned w.p. 1/3 with arbitrary data, map settings over a 5-key pool shared with the pre-fill, *Config settings as object / list trees of the shape the field already holds over the key pool of the pre-fill (depth <= 3, primitives, lists of primitives, lists of objects). Every array element is pre-filled on its own and its setting mentions a part of it (a subset of the fields / keys, a list of another length). Success half: Unpack into a deep copy under each of none / AppendValues / PrependValues / ReplaceValues / ReplaceArrValues with the default struct tag; the same type is also unpacked under StructTag(alt) with a configuration drawn from the alt reading of the type (once at a random place among those five calls, the front included, once after them) and then under the default tag again; every result is compared field-path-wise with the model of the tag set in use. A deviation is re-run on a twin type (the same struct tags plus one meaningless key, values converted) to tell dependence on earlier calls from a wrong result. Failure half (under one of the five options and -- 1 in 3 -- under StructTag(alt), drawn per case): for every configurable field position in declaration order (nested, inline and pointee positions included) one fault at a time (up to two different ones per position: unparsable string, overflow, negative into unsigned, bool/object/list into primitive, string into struct/map, primitive into *Config, wrong array length, faulty list element / struct-list element / map value / element of a composite array (the elements before it are merged first), failing validate tag, failing Validate method) is grafted onto the configuration and the struct passed in is compared with its snapshot. Plus per case a top-level []int / []string target and a top-level map[string]int target under the drawn option. Non-trivial = the type has >= 3 configurable leaf fields, the configuration mentions >= 1 and leaves out >= 1 of them; distinct = distinct (type, pre-fill, configuration, drawn option)."
+	return "one (type, pre-fill, configuration) triple per case. Type: derived from idx/4 (4 consecutive cases share it); 6 in 8 generated with reflect.StructOf (3-8 top-level fields, nesting depth <= 2; kinds bool, int/8/16/32/64, uint/8/16/32/64, float32/64, string, time.Duration, pointers to those, nested structs by value / by pointer / inline (inline, squash), []T and [N]T of primitives, [N]T (N <= 3) of structs (generated ones of primitives, or LibPlain with its unexported, ignored and embedded fields), of map[string]T and of []T, []struct, []*struct, map[string]T, map[string]*struct, map[string]struct; *ucfg.Config fields (pre-filled from a random object or list tree over a 4-key pool, or nil), config tags with and without a name (half of the names lower-case ASCII, the others with leading / inner / only upper-case letters, with _ and -, with lower- and upper-case non-ASCII letters, with letters that have no case; Go field names F<n>, MaxF<n>, F\u00dc<n>, F_x<n>), ignore, merge/replace/append/prepend on lists, maps (1 in 3) and *Config fields and -- 2 in 5 -- merge/replace/append/prepend on struct-typed fields (by value, by pointer, inline; merge twice as often as each other option, because it only shows against an outer policy), validate tags min/max/positive/nonzero on fields that exist before Unpack; the hand-written LibConn, LibLimits, LibPlain (unexported fields, an embedded unexported struct, ignored fields, InitDefaults unconditional / conditional / touching an unexported field, Validate method) and the named primitives LibPort (constant InitDefaults), LibCondPort (conditional), LibNoopInt, LibNoopStr (InitDefaults doing nothing), the named list LibList and the named array LibArr (with a no-op InitDefaults), the named maps LibMap (no-op InitDefaults) and LibDefMap (InitDefaults sets one entry outside the key pool) in 1 of 4 map-of-primitive fields, regexp.Regexp by value and by pointer, inline structs by pointer (nil or pre-filled; half of their struct types start with a struct inlined in turn, by value or by pointer, followed by ordinary fields), and fields no configuration mentions -- an interface type listing InitDefaults (nil, or holding a pointer whose InitDefaults changes nothing), ucfg.Config by value (zero or filled), the next pointer of the self-referential LibRing (nil, a chain, the node itself, a ring of two) -- as ordinary fields by value and by pointer; 1 in 3 of the generated types hold, at random places among 2-5 ordinary fields, 2-4 fields with values of ONE carrier struct type (1-2 primitive fields and, at a random place among them, a pointer to a struct of 1-3 primitives inlined into it): []T, []*T, [2-3]T, map[string]T, map[string]*T, T, *T, and at most one pointer to the same struct of primitives inlined into the enclosing struct itself -- so that one Unpack call meets several nil inline pointers of one struct type (elements of one list, entries of one map, sibling fields, in every declaration order); the self-unpacking LibSelf (Unpack(*Config), rejects lo > hi itself after having stored), LibSelfV (Unpack(*Config), Validate method rejects), LibSelfAny (Unpack(interface{})) likewise; half of the generated types carry a second tag set under the key alt on 4 fields in 5: other name, ignore flag and merge policy drawn independently, the hand-written types carry a few alt tags too), 1 in 8 the hand-written LibTop, 1 in 8 one of the three self-unpacking types as the top-level target, 1 in 64 LibRing (1 in 3 of those with the target itself as its next node). Pre-fill: every field non-zero w.p. 2/3 (nil and empty slices/maps, nil pointers otherwise; validated fields always valid). Configuration: nested map[string]interface{} through NewFrom(PathSep(\".\")), every field path mentioned w.p. 1/2 (1 in 16 of those with an explicit null), numbers as int/int64/uint64/float64/decimal string, durations as string/seconds, ignored and unexported names mentioned w.p. 1/3 with arbitrary data, map settings over a 5-key pool shared with the pre-fill, *Config settings as object / list trees of the shape the field already holds over the key pool of the pre-fill (depth <= 3, primitives, lists of primitives, lists of objects). Every array element is pre-filled on its own and its setting mentions a part of it (a subset of the fields / keys, a list of another length). Success half: Unpack into a deep copy under each of none / AppendValues / PrependValues / ReplaceValues / ReplaceArrValues with the default struct tag; the same type is also unpacked under StructTag(alt) with a configuration drawn from the alt reading of the type (once at a random place among those five calls, the front included, once after them) and then under the default tag again; every result is compared field-path-wise with the model of the tag set in use. A deviation is re-run on a twin type (the same struct tags plus one meaningless key, values converted) to tell dependence on earlier calls from a wrong result. Failure half (under one of the five options and -- 1 in 3 -- under StructTag(alt), drawn per case): for every configurable field position in declaration order (nested, inline and pointee positions included) one fault at a time (up to two different ones per position: unparsable string, overflow, negative into unsigned, bool/object/list into primitive, string into struct/map, primitive into *Config, wrong array length, faulty list element / struct-list element / map value / element of a composite array (the elements before it are merged first), failing validate tag, failing Validate method) is grafted onto the configuration and the struct passed in is compared with its snapshot. Plus per case a top-level []int / []string target and a top-level map[string]int target under the drawn option. Non-trivial = the type has >= 3 configurable leaf fields, the configuration mentions >= 1 and leaves out >= 1 of them; distinct = distinct (type, pre-fill, configuration, drawn option)."
 }
 
 func (check) Assumptions() []string {
@@ -65,7 +65,7 @@ func (check) Assumptions() []string {
 		"the self-unpacking types of this package do, on success, what the library does for an ordinary struct with the same fields (null or absent: untouched), so the same model applies; which of their failures a library version reports is not compared, only that the struct passed in is unchanged afterwards",
 		"not compared: whether a mentioned pointer / map field keeps its identity; nil versus empty for mentioned lists; which error a failed Unpack returns and whether an injected fault is reported at all (counted as fault_not_raised)",
 		"after a failed Unpack: nested struct values and arrays are compared recursively, pointer and map fields by identity only (contents excluded as in the statement), slices by length, nil-ness and -- primitive elements only -- element values",
-		"validate tags are only generated where the value exists before Unpack (top level, by-value and inline nesting) and pre-fills always pass them, because Unpack validates untouched fields too; struct elements of lists and maps hold primitives only; map[string]struct entries that already exist are never touched (panic on this tree: C07's finding); inline maps, pointers inside lists/maps, lists of lists are not generated (C06/C07); lists inside the elements of an array follow the policy in force for the array field",
+		"validate tags are only generated where the value exists before Unpack (top level, by-value and inline nesting) and pre-fills always pass them, because Unpack validates untouched fields too; struct elements of lists and maps hold primitives and -- the carrier type -- one inlined pointer to a struct of primitives (a struct that never reaches its own type again: what the recursion guard for self-inlining types does below a named field is C06's business); map[string]struct entries that already exist are never touched (panic on this tree: C07's finding); inline maps, pointers inside lists/maps, lists of lists are not generated (C06/C07); lists inside the elements of an array follow the policy in force for the array field",
 	}
 }
 
@@ -755,8 +755,21 @@ func (rn *runner) success1(cfg *cval) (got reflect.Value, failed bool) {
 	}
 	exp := reflect.New(rn.top.typ)
 	exp.Elem().Set(deepCopy(rn.master))
-	m := &modeler{cfgs: rn.cfgs, cfgExp: map[*field]*model.Node{}}
+	m := &modeler{cfgs: rn.cfgs, cfgExp: map[*field]*model.Node{}, allocs: map[reflect.Type]int{}}
 	m.applyStruct(rn.top, exp.Elem(), cfg, rn.gopt.pc)
+	// how many nil inline pointers of ONE struct type this call has to allocate
+	most := 0
+	for _, n := range m.allocs {
+		if n > most {
+			most = n
+		}
+	}
+	if most >= 2 {
+		res.Ev("unpacks_that_allocate_several_nil_inline_pointers_of_one_struct_type", 1)
+		if most >= 4 {
+			res.Ev("unpacks_that_allocate_four_or_more_nil_inline_pointers_of_one_struct_type", 1)
+		}
+	}
 	rn.lastExp = exp.Elem()
 	rn.recheck = func(got reflect.Value, twin map[uintptr]uintptr) bool {
 		t := harness.NewR(0)
@@ -764,7 +777,7 @@ func (rn *runner) success1(cfg *cval) (got reflect.Value, failed bool) {
 		k2.cmpStruct(rn.top, rn.master, exp.Elem(), got, cfg, rn.gopt.pc, "top", "")
 		return len(t.Violations) == 0
 	}
-	k := &comparer{res: res, twin: twin, cfgs: rn.cfgs, cfgExp: m.cfgExp, ctx: ctx}
+	k := &comparer{res: res, twin: twin, cfgs: rn.cfgs, cfgExp: m.cfgExp, ctx: ctx, top: rn.top, gotTop: target.Elem()}
 	k.cmpStruct(rn.top, rn.master, exp.Elem(), target.Elem(), cfg, rn.gopt.pc, "top", "")
 	if rn.verbose {
 		fmt.Printf("option %s tag %s:\n  after %s\n  model %s\n", rn.gopt.name, rn.top.tagKey, render(target.Elem()), render(exp.Elem()))
@@ -839,6 +852,11 @@ func (rn *runner) monitors(st *stype, where string) {
 		res.SetAdd("field_shape", f.shape())
 		if f.inline {
 			res.SetAdd("tag_option", "inline")
+		}
+		if est := f.elemStruct(); est != nil && est.inlinesPointer() {
+			// several values of one struct type that inlines a pointer
+			res.Ev("fields_holding_values_of_a_struct_type_that_inlines_a_pointer", 1)
+			res.SetAdd("place_of_struct_type_that_inlines_a_pointer", f.shape()+"@"+where)
 		}
 		if f.tagPol != "" {
 			if f.sub != nil && f.kind != kSliceStruct {
